@@ -63,6 +63,16 @@ func (g *G) posInt() int {
 	return g.n*7 + g.Rg.Intn(5) + 1
 }
 
+// countInt is a row / series count: small, or (outside Simple mode) at the
+// 32- and 64-bit boundaries.
+func (g *G) countInt() int {
+	if !g.Opt.Simple && g.Rg.P(0.1) {
+		g.feat("count.boundary")
+		return []int{2147483647, 2147483648, 4294967295, 4294967296, 9223372036854775807}[g.Rg.Intn(5)]
+	}
+	return g.posInt()
+}
+
 func (g *G) intTok(n int) { g.B.Raw(strconv.Itoa(n), CNum, "integer") }
 
 func (g *G) durTok(d time.Duration) { g.B.Raw(g.DurSpell(d), CDur, "duration") }
@@ -379,12 +389,12 @@ func (g *G) timeIdent() {
 
 func (g *G) limitOffset(on func(string) bool, limit, offset *int) {
 	if on("LIMIT") {
-		*limit = g.posInt()
+		*limit = g.countInt()
 		g.B.Kw("LIMIT")
 		g.intTok(*limit)
 	}
 	if on("OFFSET") {
-		*offset = g.posInt()
+		*offset = g.countInt()
 		g.B.Kw("OFFSET")
 		g.intTok(*offset)
 	}
@@ -521,12 +531,12 @@ func (g *G) selectStmt(on func(string) bool, o selOpts) *influxql.SelectStatemen
 	}
 	g.limitOffset(on, &s.Limit, &s.Offset)
 	if on("SLIMIT") {
-		s.SLimit = g.posInt()
+		s.SLimit = g.countInt()
 		b.Kw("SLIMIT")
 		g.intTok(s.SLimit)
 	}
 	if on("SOFFSET") {
-		s.SOffset = g.posInt()
+		s.SOffset = g.countInt()
 		b.Kw("SOFFSET")
 		g.intTok(s.SOffset)
 	}
@@ -1191,12 +1201,12 @@ func init() {
 		}
 		g.limitOffset(on, &s.Limit, &s.Offset)
 		if on("SLIMIT") {
-			s.SLimit = g.posInt()
+			s.SLimit = g.countInt()
 			g.B.Kw("SLIMIT")
 			g.intTok(s.SLimit)
 		}
 		if on("SOFFSET") {
-			s.SOffset = g.posInt()
+			s.SOffset = g.countInt()
 			g.B.Kw("SOFFSET")
 			g.intTok(s.SOffset)
 		}
